@@ -92,6 +92,15 @@ def _check(case, exp, s, cls):
         if defaults:
             cls.append("default-languages")
         singles = {L: _res(_parser(languages=[L]).get_date_data(s)) for L in langs}
+        if case.get("num"):
+            # absolute anchor (not only consistency between calls of this process): a language whose own order is the order the
+            # digits were written in must read them as written
+            num = case["num"]
+            want_abs = dt.datetime(*num["ymd"], *num["hm"])
+            for L in langs:
+                if data.info(L).get("date_order", "MDY") == num["order"] and singles[L][0] != want_abs:
+                    return fail("single-language-reading", "languages=[%r] (order %s) reads %r as %r, expected %r"
+                                % (L, num["order"], s, singles[L][0], want_abs), (s, tuple(langs), "num"))
         seq = langs if given else sorted(langs, key=order.index)
         want = next((singles[L] for L in seq if singles[L][0] is not None), None)
         kw = {"languages": langs}
@@ -253,8 +262,21 @@ def cases(draw):
     e = corpus()[draw(st.integers(0, len(corpus()) - 1))]
     s, detected = e["s"], lang_of(e["locale"])
     order = data.language_order()
-    exp = draw(st.sampled_from(["A", "A", "A", "B", "C", "D", "A-tz"]))
+    exp = draw(st.sampled_from(["A", "A", "A", "B", "C", "D", "A-tz", "A-num"]))
     c = {"exp": exp, "s": s}
+    if exp == "A-num":
+        # numeric dates that only some date orders can read, for language lists that mix DMY / MDY / YMD languages and 'tl'
+        # (which has no order of its own and inherits whatever order is in force)
+        a, b = draw(st.integers(13, 28)), draw(st.integers(1, 12))
+        y = draw(st.sampled_from([2012, 1999, 2020]))
+        sep = draw(st.sampled_from(["/", "-", "."]))
+        order_, body = draw(st.sampled_from([("MDY", [b, a, y]), ("DMY", [a, b, y]), ("YDM", [y, a, b]), ("YMD", [y, b, a])]))
+        tail = draw(st.sampled_from(["", " 10:30"]))
+        s2 = sep.join(("%02d" % v) if v < 100 else str(v) for v in body) + tail
+        c["num"] = {"order": order_, "ymd": [y, b, a], "hm": [10, 30] if tail else [0, 0]}
+        langs = draw(st.lists(st.sampled_from(["en", "de", "fr", "tl", "ja", "hu", "zh", "es", "ru", "ko", "tl", "sv"]), min_size=2, max_size=3, unique=True))
+        c.update(exp="A", s=s2, langs=langs, given_order=draw(st.booleans()), defaults=None)
+        return c
     if exp == "A-tz":
         # a date followed by a zone abbreviation that is a word of another language
         abbr, wl = draw(st.sampled_from(tz_words()))
